@@ -338,11 +338,12 @@ def plan_requests(rng, plan, n_random, covered, cap):
 def one_project(ctx, exe_tables, proj, tag, n_random, covered, cap):
     rng = ctx.rng
     # one directory and one package name per (project kind, seed): concurrent runs never share a crate
-    d = os.path.join(ctx.work, "probe_%s_s%d" % (tag, ctx.seed))
+    from checks import isolate
+    d = isolate.probe_dir(ctx, "probe_%s" % tag)
     touch_list = sc.touchables(proj)
     if len(touch_list) > 400:
         touch_list = rng.sample(touch_list, 400)
-    name = "c17_probe_%s_s%d" % (tag, ctx.seed)
+    name = isolate.probe_name(ctx, "c17_probe_%s" % tag)
     sc.write_probe(proj, d, touch_list, name)
     # expected tables: the parser's string table of every unit (what the macro bakes into STRINGS)
     rc, out, err = core.sh([exe_tables], input="%s\t%s\n" % (d, os.path.join(d, "out_tables")), timeout=300)
@@ -417,6 +418,8 @@ def shrink_desc(m):
 
 
 def run(ctx):
+    from checks import isolate
+    isolate.enter(ctx)
     bindir = core.cargo_build("h_strings")
     ok, problems = core.coq_audit(ctx, PROPS, THEOREMS)
     exe_tables = os.path.join(bindir, "h_strings")
@@ -528,6 +531,8 @@ def run(ctx):
 
 
 def replay(ctx, path):
+    from checks import isolate
+    isolate.enter(ctx)
     obj = json.load(open(path))
     print(json.dumps(obj, indent=1, ensure_ascii=True))
     fi = obj.get("failing_input") or obj.get("first_disagreeing_input")
